@@ -48,6 +48,8 @@ type Explorer struct {
 	outstanding map[string]int
 	direct      map[string]int
 	reqOf       map[string]string // "c id" -> "kind rid"
+	tokens      map[string]int
+	deletedRids map[string]bool
 	steps       int
 }
 
@@ -55,12 +57,64 @@ func name(n int) string { return "test.r" + strconv.Itoa(n) }
 
 func (x *Explorer) fresh() int { x.tag++; return x.tag }
 
-func (x *Explorer) genValue(refOK bool) absval.V {
+// refTargets lists the resources that resource `owner` may reference. In clean mode the reference graph is
+// kept inside the class for which the gateway's collector is sound (DESIGN section 7): acyclic, resources with
+// several referrers are leaves, no resource is referenced twice from one resource.
+func (x *Explorer) refTargets(owner int) []int {
+	var out []int
+	R := x.P.Resources
+	for t := 0; t < R; t++ {
+		if !x.P.Clean {
+			out = append(out, t)
+			continue
+		}
+		// levels: 0,1 roots; 2 (when R > 3) a middle node owned by root 0; the rest leaves
+		level := func(n int) int {
+			switch {
+			case n < 2:
+				return 0
+			case n == 2 && R > 3:
+				return 1
+			}
+			return 2
+		}
+		lo, lt := level(owner), level(t)
+		switch {
+		case lo == 0 && lt == 2:
+		case lo == 0 && lt == 1 && owner == 0:
+		case lo == 1 && lt == 2:
+		default:
+			continue
+		}
+		if c := x.Truth[name(owner)]; c != nil {
+			dup := false
+			for _, v := range c.M {
+				if v.K == 'r' && v.N == t {
+					dup = true
+				}
+			}
+			for _, v := range c.L {
+				if v.K == 'r' && v.N == t {
+					dup = true
+				}
+			}
+			if dup {
+				continue
+			}
+		}
+		out = append(out, t)
+	}
+	return out
+}
+
+func (x *Explorer) genValue(owner int) absval.V {
 	k := x.R.Intn(12)
 	switch {
-	case k < 3 && refOK && x.P.Refs:
-		return absval.V{K: 'r', N: x.R.Intn(x.P.Resources)}
-	case k < 4 && refOK && x.P.Refs:
+	case k < 3 && x.P.Refs:
+		if ts := x.refTargets(owner); len(ts) > 0 {
+			return absval.V{K: 'r', N: ts[x.R.Intn(len(ts))]}
+		}
+	case k < 4 && x.P.Refs:
 		return absval.V{K: 's', N: x.R.Intn(x.P.Resources)}
 	case k < 5:
 		return absval.V{K: 'd', N: x.fresh()}
@@ -72,17 +126,17 @@ func (x *Explorer) initTruth() {
 	x.Truth = map[string]*gw.Content{}
 	for i := 0; i < x.P.Resources; i++ {
 		c := &gw.Content{IsModel: !x.P.Collections || x.R.Intn(3) > 0}
+		x.Truth[name(i)] = c
 		if c.IsModel {
 			c.M = absval.KV{}
 			for k := x.R.Intn(3); k >= 0; k-- {
-				c.M[x.R.Intn(4)] = x.genValue(true)
+				c.M[x.R.Intn(4)] = x.genValue(i)
 			}
 		} else {
 			for k := x.R.Intn(4); k > 0; k-- {
-				c.L = append(c.L, x.genValue(true))
+				c.L = append(c.L, x.genValue(i))
 			}
 		}
-		x.Truth[name(i)] = c
 	}
 	if x.R.Intn(4) == 0 {
 		x.Truth[name(x.R.Intn(x.P.Resources))] = nil // a resource that does not exist
@@ -181,9 +235,11 @@ func (x *Explorer) svcEvent() (gw.Action, bool) {
 		a.Abs = sn + "\tcustom\tcustom/" + strconv.Itoa(x.seq)
 	case k < 4 && x.P.Reaccess:
 		a.Ev, a.Text, a.Abs = "reaccess", "", sn+"\treaccess"
-	case k < 5 && x.P.Deletes:
+	case k < 5 && x.P.Deletes && !(x.P.Clean && (x.anyOutstanding(name(n)) || hasRefs(c))):
+		// (clean mode: no delete while a request for the resource is outstanding — recorded finding KF-P1)
 		a.Ev, a.Text, a.Abs = "delete", "", sn+"\tdelete"
 		x.Truth[name(n)] = nil
+		x.deletedRids[name(n)] = true
 	case c.IsModel:
 		ch := absval.KV{}
 		for e := 1 + x.R.Intn(2); e > 0; e-- {
@@ -191,7 +247,7 @@ func (x *Explorer) svcEvent() (gw.Action, bool) {
 			if _, ok := c.M[key]; ok && x.R.Intn(4) == 0 {
 				ch[key] = absval.V{K: 'x'}
 			} else {
-				ch[key] = x.genValue(true)
+				ch[key] = x.genValue(n)
 			}
 		}
 		ch[9] = absval.V{K: 'p', N: x.fresh()} // makes every change event unique and effective
@@ -212,7 +268,7 @@ func (x *Explorer) svcEvent() (gw.Action, bool) {
 			a.Abs = sn + "\tremove\t" + strconv.Itoa(idx)
 		} else {
 			idx := x.R.Intn(len(c.L) + 1)
-			v := x.genValue(true)
+			v := x.genValue(n)
 			c.L = append(c.L[:idx:idx], append(absval.List{v}, c.L[idx:]...)...)
 			a.Ev, a.Text = "add", `{"idx":`+strconv.Itoa(idx)+`,"value":`+v.JSON()+`}`
 			a.Abs = sn + "\tadd\t" + strconv.Itoa(idx) + "\t" + v.String()
@@ -227,6 +283,15 @@ func (x *Explorer) clientFrame(c *gw.Client) (gw.Action, bool) {
 	x.nextID[c.Label]++
 	id := x.nextID[c.Label]
 	n := x.R.Intn(x.P.Resources)
+	if x.P.Clean {
+		// (clean mode: no request for a resource whose delete event may still be in flight — KF-PENDING-DROPPED)
+		for try := 0; try < 8 && x.deletedRids[name(n)]; try++ {
+			n = x.R.Intn(x.P.Resources)
+		}
+		if x.deletedRids[name(n)] {
+			return gw.Action{}, false
+		}
+	}
 	rid := name(n)
 	key := c.Label + " " + rid
 	kinds := []string{"subscribe", "subscribe", "subscribe"}
@@ -290,7 +355,7 @@ func (x *Explorer) quiesce(label string) {
 
 // Explore runs one random history and returns the run.
 func Explore(seed int64, p Profile) (run *gw.Run, stall error) {
-	x := &Explorer{R: gen.New(seed), P: p, nextID: map[string]uint64{}, outstanding: map[string]int{}, direct: map[string]int{}, reqOf: map[string]string{}}
+	x := &Explorer{R: gen.New(seed), P: p, nextID: map[string]uint64{}, outstanding: map[string]int{}, direct: map[string]int{}, reqOf: map[string]string{}, tokens: map[string]int{}, deletedRids: map[string]bool{}}
 	x.Run = gw.NewRun(func(c *server.Config) {
 		c.ReferenceThrottle = p.Throttle
 		c.ResetThrottle = p.Throttle
@@ -345,18 +410,51 @@ func Explore(seed int64, p Profile) (run *gw.Run, stall error) {
 		k := x.R.Intn(100)
 		switch {
 		case k < 45 && len(live) > 0:
-			a, _ := x.clientFrame(live[x.R.Intn(len(live))])
-			x.Run.Do(a)
+			if a, ok := x.clientFrame(live[x.R.Intn(len(live))]); ok {
+				x.Run.Do(a)
+			}
 		case k < 85:
 			if a, ok := x.svcEvent(); ok {
 				x.Run.Do(a)
 			}
-		case k < 90 && p.Disconnect && len(live) > 1:
+		case k < 88 && p.Disconnect && len(live) > 1:
 			c := live[x.R.Intn(len(live))]
 			x.Run.Do(gw.Action{A: "disconnect", C: c.Label})
 			closed[x.Run][c.Label] = true
-		case k < 95 && p.Evict:
+		case k < 91 && p.Evict:
 			x.Run.Do(gw.Action{A: "evict", Subj: name(x.R.Intn(p.Resources))})
+		case k < 94 && p.Tokens && len(live) > 0:
+			c := live[x.R.Intn(len(live))]
+			t := x.R.Intn(3)
+			x.tokens[c.Label] = t
+			payload := fmt.Sprintf(`{"token":{"t":%d},"tid":"tid%d"}`, t, t)
+			abs := fmt.Sprintf("token\tt%d\ttid%d", t, t)
+			if x.R.Intn(5) == 0 {
+				payload, abs = `{"token":null}`, "token\t-\t-"
+				delete(x.tokens, c.Label)
+			}
+			x.Run.Do(gw.Action{A: "connevent", C: c.Label, Ev: "token", Text: payload, Abs: abs})
+		case k < 97 && p.Resets:
+			var pats []string
+			for e := 1 + x.R.Intn(2); e > 0; e-- {
+				pats = append(pats, x.R.Pick("test.>", "test.*", name(x.R.Intn(p.Resources)), "test.r*", "other.>", ">", "test..x", "*.r1"))
+			}
+			pj, _ := json.Marshal(pats)
+			which := x.R.Pick("resources", "access", "both")
+			var payload string
+			switch which {
+			case "resources":
+				payload = `{"resources":` + string(pj) + `}`
+			case "access":
+				payload = `{"access":` + string(pj) + `}`
+			default:
+				payload = `{"resources":` + string(pj) + `,"access":` + string(pj) + `}`
+			}
+			// a reset announces that resources may have changed silently: mutate some truth without events first
+			if which != "access" && x.R.Intn(2) == 0 {
+				x.silentMutation()
+			}
+			x.Run.Do(gw.Action{A: "sysevent", Ev: "reset", Text: payload, Abs: "reset\t" + which + "\t" + fmt.Sprintf("%x", strings.Join(pats, ","))})
 		default:
 			if a, ok := x.svcEvent(); ok {
 				x.Run.Do(a)
@@ -437,4 +535,57 @@ func Replay(path string) (run *gw.Run, stall error) {
 		run.Do(a)
 	}
 	return run, nil
+}
+
+// silentMutation changes the truth of one resource without announcing it (a reset will).
+func (x *Explorer) silentMutation() {
+	n := x.R.Intn(x.P.Resources)
+	c := x.Truth[name(n)]
+	if c == nil {
+		return
+	}
+	if c.IsModel {
+		for e := 1 + x.R.Intn(2); e > 0; e-- {
+			key := x.R.Intn(4)
+			if _, ok := c.M[key]; ok && x.R.Intn(3) == 0 {
+				delete(c.M, key)
+			} else {
+				c.M[key] = x.genValue(n)
+			}
+		}
+	} else {
+		for e := 1 + x.R.Intn(3); e > 0; e-- {
+			if len(c.L) > 0 && x.R.Intn(2) == 0 {
+				p := x.R.Intn(len(c.L))
+				c.L = append(c.L[:p:p], c.L[p+1:]...)
+			} else {
+				p := x.R.Intn(len(c.L) + 1)
+				c.L = append(c.L[:p:p], append(absval.List{x.genValue(n)}, c.L[p:]...)...)
+			}
+		}
+	}
+	x.Run.Do(gw.Action{A: "note", Abs: "SILENT\t" + strconv.Itoa(n)})
+}
+
+func (x *Explorer) anyOutstanding(rid string) bool {
+	for k, n := range x.outstanding {
+		if n > 0 && strings.HasSuffix(k, " "+rid) {
+			return true
+		}
+	}
+	return false
+}
+
+func hasRefs(c *gw.Content) bool {
+	for _, v := range c.M {
+		if v.K == 'r' {
+			return true
+		}
+	}
+	for _, v := range c.L {
+		if v.K == 'r' {
+			return true
+		}
+	}
+	return false
 }
